@@ -241,7 +241,7 @@ type state struct {
 func (st *state) exec(op *plan.Op, shared *scripted) (res plan.Res) {
 	res.I = op.I
 	// decode arguments before the clock starts
-	var ent []byte
+	var ent, full []byte
 	var s, p string
 	var src *scripted
 	switch op.Fn {
@@ -255,6 +255,17 @@ func (st *state) exec(op *plan.Op, shared *scripted) (res plan.Res) {
 			}
 		} else {
 			ent = op.Entropy()
+		}
+		if op.Cap > 0 && ent != nil && op.Buf == 0 {
+			// caller-owned backing array with spare capacity behind the slice
+			full = make([]byte, len(ent)+op.Cap)
+			copy(full, ent)
+			for i := len(ent); i < len(full); i++ {
+				full[i] = 0xA5
+			}
+			ent = full[:len(ent)]
+		} else if ent != nil && op.Buf == 0 {
+			ent = append(make([]byte, 0, len(ent)), ent...) // capacity == length
 		}
 	case "chk", "val", "chkval":
 		s = op.Str()
@@ -425,7 +436,9 @@ func (st *state) exec(op *plan.Op, shared *scripted) (res plan.Res) {
 			res.Reads = append(res.Reads, ev)
 		}
 	}
-	if op.Fn == "enc" || op.Fn == "encchk" {
+	if (op.Fn == "enc" || op.Fn == "encchk") && full != nil {
+		res.IA = bufAfter(full)
+	} else if op.Fn == "enc" || op.Fn == "encchk" {
 		res.IA = bufAfter(ent)
 	}
 	return res
@@ -488,6 +501,15 @@ func runConc(path string) {
 	}
 	if c.GoMaxProcs > 0 {
 		runtime.GOMAXPROCS(c.GoMaxProcs)
+	}
+	var pre []plan.Res
+	if len(c.Pre) > 0 {
+		st := &state{bufs: map[int][]byte{}}
+		for i := range c.Pre {
+			r := st.exec(&c.Pre[i], nil)
+			r.G = -1
+			pre = append(pre, r)
+		}
 	}
 	var shared *scripted
 	if c.Shared != nil {
@@ -563,6 +585,9 @@ func runConc(path string) {
 	out := bufio.NewWriterSize(os.Stdout, 1<<20)
 	defer out.Flush()
 	enc := json.NewEncoder(out)
+	for i := range pre {
+		enc.Encode(&pre[i])
+	}
 	for w := range results {
 		for i := range results[w] {
 			enc.Encode(&results[w][i])
